@@ -268,8 +268,13 @@ def _replay(path):
         ov = vf.make_overlay(sd, HARNESS)
         binp = vf.go_test_compile(ov, "./" + PKG + "/", os.path.join(sd, "sandbox.test"))
         case = dict(rp["case"], id=0)
-        outs, _inv, _ = run_harness(sd, binp, [case], "sand", [rp["fn"]], "replay")
-        rep = judge(chk, sd, records([case], outs, "sand"), "replay")
+        outs, inv, segs = run_harness(sd, binp, [case], "sand", [rp["fn"]], "replay", strace=rp.get("mode") == "sys")
+        recs = records([case], outs, "sand")
+        if segs is not None:
+            sysr, _odd = sys_records([case], segs, inv["selected"])
+            recs += sysr
+            print("system calls:", json.dumps([c for x in sysr for c in x["calls"]])[:2000])
+        rep = judge(chk, sd, recs, "replay")
         print("observed:", json.dumps(outs[0]["groups"]))
         print("bad:", json.dumps(rep["bad"]))
         if any(b["key"] == o["key"] for b in rep["bad"]):
